@@ -19,9 +19,11 @@ import (
 	"io"
 	"math/rand"
 	"os"
+	"runtime"
 	"sort"
 	"strings"
 	"sync"
+	"sync/atomic"
 	"time"
 
 	log "github.com/sirupsen/logrus"
@@ -64,30 +66,60 @@ func stat(key string) {
 	statMu.Unlock()
 }
 
+// fatalSeen is set by the logrus exit function: log.Fatal* anywhere (also in a goroutine started by
+// the code under test) terminates the calling goroutine (runtime.Goexit) and is observed as the
+// outcome "fatal" of the case being executed.
+var fatalSeen atomic.Bool
+
 // guard runs f, mapping panics and log.Fatal to outcome strings.
 func guard(f func() string) (res string) {
 	defer func() {
 		if r := recover(); r != nil {
-			if fe, ok := r.(fatalExit); ok {
-				_ = fe
-				res = "fatal"
-				return
-			}
 			res = "panic"
 		}
 	}()
 	return f()
 }
 
-// guardT is guard with a watchdog; a case that does not finish is the outcome "hang".
+// guardT is guard with a watchdog; a case that does not finish is the outcome "hang"; a log.Fatal
+// in any goroutine is the outcome "fatal".
 func guardT(d time.Duration, f func() string) string {
+	fatalSeen.Store(false)
 	ch := make(chan string, 1)
-	go func() { ch <- guard(f) }()
-	select {
-	case r := <-ch:
-		return r
-	case <-time.After(d):
-		return "hang"
+	go func() {
+		res := ""
+		done := false
+		defer func() {
+			if !done { // the goroutine was terminated by log.Fatal (runtime.Goexit)
+				res = "fatal"
+			}
+			ch <- res
+		}()
+		res = guard(f)
+		done = true
+	}()
+	deadline := time.After(d)
+	tick := time.NewTicker(5 * time.Millisecond)
+	defer tick.Stop()
+	for {
+		select {
+		case r := <-ch:
+			if fatalSeen.Load() {
+				return "fatal"
+			}
+			return r
+		case <-tick.C:
+			if fatalSeen.Load() {
+				// a goroutine of the code under test died in log.Fatal; give the rest 50 ms to settle
+				select {
+				case <-ch:
+				case <-time.After(50 * time.Millisecond):
+				}
+				return "fatal"
+			}
+		case <-deadline:
+			return "hang"
+		}
 	}
 }
 
@@ -99,7 +131,10 @@ func clean(s string) string {
 
 func main() {
 	log.SetLevel(log.PanicLevel)
-	log.StandardLogger().ExitFunc = func(code int) { panic(fatalExit{code}) }
+	log.StandardLogger().ExitFunc = func(code int) {
+		fatalSeen.Store(true)
+		runtime.Goexit()
+	}
 	log.SetOutput(io.Discard)
 
 	if len(os.Args) < 3 {
